@@ -842,6 +842,34 @@ fn gen_nums(r: &mut Rng) -> Nums {
     }
 }
 
+/// element and attribute names that are prefixes of one another: a list `t_n`, then a single `t_nx`,
+/// then a list `t_nxy` (names must be compared whole, never by prefix)
+#[derive(Serialize, Deserialize, Debug, PartialEq, Clone)]
+#[serde(rename = "s_nameprefix")]
+pub struct NamePrefix {
+    #[serde(rename = "@a_n")]
+    pub a_n: u8,
+    #[serde(rename = "@a_nx", default)]
+    pub a_nx: String,
+    #[serde(default)]
+    pub t_n: Vec<String>,
+    pub t_nx: String,
+    #[serde(default)]
+    pub t_nxy: Vec<u32>,
+    #[serde(skip_serializing_if = "Option::is_none", default)]
+    pub t_nxyz: Option<String>,
+}
+fn gen_nameprefix(r: &mut Rng) -> NamePrefix {
+    NamePrefix {
+        a_n: r.next() as u8,
+        a_nx: gen_string(r, Pos::Attr),
+        t_n: (0..gen_len(r).min(4)).map(|_| gen_string(r, Pos::Text)).collect(),
+        t_nx: gen_string(r, Pos::Text),
+        t_nxy: (0..gen_len(r).min(4)).map(|_| r.next() as u32 % 100).collect(),
+        t_nxyz: if r.bool() { Some(gen_nonempty(r, Pos::Text)) } else { None },
+    }
+}
+
 /// T17 — element list and text content in one element (element list row + $text row)
 #[derive(Serialize, Deserialize, Debug, PartialEq, Clone)]
 #[serde(rename = "m_listtext")]
@@ -1384,6 +1412,7 @@ pub fn family() -> Vec<TypeOps> {
         ops!(HasMixed2, "HasMixed2", gen = gen_mixed2, rows = &["$value:mixed-list-whose-elements-have-text-content"]),
         ops!(OptTextEl, "OptTextEl", gen = gen_opttextel, rows = &["named-children-and-optional-$text", "list:elements-unit"]),
         ops!(Protocols, "Protocols", gen = gen_protocols, rows = &["serializer-protocol:collect_str", "serializer-protocol:serialize_key+serialize_value"]),
+        ops!(NamePrefix, "NamePrefix", gen = gen_nameprefix, rows = &["names-that-are-prefixes-of-one-another"]),
     ]
 }
 
@@ -2113,6 +2142,83 @@ pub fn gen_mixedtuple(r: &mut Rng) -> MixedTuple {
     }
 }
 
+/// a `$text` variant that is a tuple (written as an xs:list) next to element variants
+#[derive(Serialize, Debug, PartialEq, Clone)]
+pub enum TextListVar {
+    #[serde(rename = "$text")]
+    Pair(String, String),
+    #[serde(rename = "$text")]
+    Three(u8, String, bool),
+    #[serde(rename = "t_N")]
+    N(String),
+    #[serde(rename = "u_U")]
+    U,
+}
+fn gen_item_token(r: &mut Rng) -> String {
+    // an xs:list item: no whitespace, not empty
+    let s: String = gen_string(r, Pos::Item);
+    if s.is_empty() {
+        "i".into()
+    } else {
+        s
+    }
+}
+fn gen_texttuplevars(r: &mut Rng) -> Vec<TextListVar> {
+    let mut v = Vec::new();
+    let mut last_text = false;
+    for _ in 0..1 + r.below(5) {
+        let it = match r.below(4) {
+            0 if !last_text => TextListVar::Pair(gen_item_token(r), gen_item_token(r)),
+            1 if !last_text => TextListVar::Three(r.next() as u8, gen_item_token(r), r.bool()),
+            2 => TextListVar::U,
+            _ => TextListVar::N(gen_string(r, Pos::Attr)),
+        };
+        last_text = matches!(it, TextListVar::Pair(..) | TextListVar::Three(..));
+        v.push(it);
+    }
+    v
+}
+/// a sequence that is opened with an unknown length and gets no item (`collect_seq` over a filtering
+/// iterator, a hand-written `Serialize`): it must leave no trace in the output
+#[derive(Debug, PartialEq, Clone)]
+pub struct NoItems;
+impl Serialize for NoItems {
+    fn serialize<S: serde::Serializer>(&self, s: S) -> Result<S::Ok, S::Error> {
+        use serde::ser::SerializeSeq;
+        let seq = s.serialize_seq(None)?;
+        seq.end()
+    }
+}
+/// the same through `collect_seq` with an iterator whose size hint has no upper bound equal to the lower
+#[derive(Debug, PartialEq, Clone)]
+pub struct Filtered(pub Vec<u8>);
+impl Serialize for Filtered {
+    fn serialize<S: serde::Serializer>(&self, s: S) -> Result<S::Ok, S::Error> {
+        s.collect_seq(self.0.iter().filter(|x| **x > 200))
+    }
+}
+#[derive(Serialize, Debug, PartialEq, Clone)]
+#[serde(rename = "m_noitems")]
+pub struct HasNoItems {
+    #[serde(rename = "@a_k")]
+    pub k: u8,
+    pub t_none: NoItems,
+    #[serde(rename = "$text")]
+    pub t: String,
+}
+#[derive(Serialize, Debug, PartialEq, Clone)]
+#[serde(rename = "s_noitems2")]
+pub struct HasNoItems2 {
+    pub t_before: String,
+    pub t_f: Filtered,
+    pub s_in: NoItemsInner,
+    pub t_last: NoItems,
+}
+#[derive(Serialize, Debug, PartialEq, Clone)]
+pub struct NoItemsInner {
+    pub t_none: NoItems,
+}
+
 pub struct SerOnly {
     pub name: &'static str,
     pub gen: fn(&mut Rng) -> Box<dyn Val>,
@@ -2233,6 +2339,12 @@ pub fn ser_only() -> Vec<SerOnly> {
             x_shown: TextAny { k: r.next() as u8, t: Shown(gen_string(r, Pos::Attr)) },
         }),
         so!("ValAny<Vec<ShownVar>>", |r: &mut Rng| ValAny { k: r.next() as u8, v: (0..r.below(4)).map(|_| if r.bool() { ShownVar::Txt(Shown(gen_string(r, Pos::Attr))) } else { ShownVar::E(Shown(gen_string(r, Pos::Attr))) }).collect::<Vec<ShownVar>>() }),
+        so!("ValAny<Vec<TextListVar>>", |r: &mut Rng| ValAny { k: r.next() as u8, v: gen_texttuplevars(r) }),
+        so!("ValAny<TextListVar>", |r: &mut Rng| ValAny { k: r.next() as u8, v: TextListVar::Pair(gen_item_token(r), gen_item_token(r)) }),
+        so!("ValAny<(TextListVar,Inner)>", |r: &mut Rng| ValAny { k: r.next() as u8, v: (TextListVar::Pair(gen_item_token(r), gen_item_token(r)), gen_inner(r)) }),
+        so!("HasNoItems", |r: &mut Rng| HasNoItems { k: r.next() as u8, t_none: NoItems, t: gen_string(r, Pos::Attr) }),
+        so!("HasNoItems2", |r: &mut Rng| HasNoItems2 { t_before: gen_string(r, Pos::Attr), t_f: Filtered((0..r.below(4)).map(|_| r.next() as u8).collect()), s_in: NoItemsInner { t_none: NoItems }, t_last: NoItems }),
+        so!("ElemAny<NoItems>", |r: &mut Rng| ElemAny { t_v: NoItems, k: r.next() as u8 }),
         so!("VarKinds", |r: &mut Rng| gen_varkinds(r)),
         so!("Vec<VarKinds>", |r: &mut Rng| (0..r.below(4)).map(|_| gen_varkinds(r)).collect::<Vec<VarKinds>>()),
     ]
